@@ -33,7 +33,7 @@ func init() { props["C02"] = runC02 }
 const c02Fuel = "#4000"
 
 func runC02(e *env) {
-	e.res.Rule = "bundles from the command grammar (nesting depth<=3, 1-6 templates over 1-3 namespaces and 1-6 files, soydoc or header params, optional params, relative / fully-qualified / aliased / name= call forms, both param syntaxes, data=all / data=$e / data=[map literal], params overriding passed data, recursion on a decreasing int, small name pool so that lets and loop variables shadow params and each other, scope probes) x 2 data sets satisfying the declared params; rendered by robfig/soy, by the Coq tree-walker model, by the Coq lexical-environment Spec (Spec/Cmd.v) and by the composed Spec (Spec/CmdIndep.v: expressions by C01's Spec/Expr.v) on the dumped AST; a third stream applies one textual mutation (tag deleted / duplicated / swapped, let or special character inserted, tag wrapped in a let) and keeps what still compiles. Oracle: implementation output = Spec output (bytes, ok/error; the composed Spec must agree with Spec/Cmd.v whenever it answers). Also per file: call names resolved by the model's resolve_name = names of the parsed CallNodes; every {literal} body = the text of a raw-text node. wf_registry is evaluated on every dumped registry. Non-trivial = uses at least one of let/foreach/for/call/switch/if; distinct by source text + data."
+	e.res.Rule = "bundles from the command grammar (nesting depth<=3, 1-6 templates over 1-3 namespaces and 1-6 files, soydoc or header params, optional params, relative / fully-qualified / aliased / name= call forms, both param syntaxes, data=all / data=$e / data=[map literal], params overriding passed data, recursion on a decreasing int, small name pool so that lets and loop variables shadow params and each other, scope probes) x 2 data sets satisfying the declared params; rendered by robfig/soy, by the Coq tree-walker model, by the Coq lexical-environment Spec (Spec/Cmd.v) and by the composed Spec (Spec/CmdIndep.v: expressions by C01's Spec/Expr.v) on the dumped AST; a third stream applies one textual mutation (tag deleted / duplicated / swapped, let or special character inserted, tag wrapped in a let) and keeps what still compiles. Oracle: implementation output = Spec output (bytes, ok/error; the composed Spec must agree with Spec/Cmd.v whenever it answers). Also per file: call names resolved by the model's resolve_name = names of the parsed CallNodes; every {literal} body = the text of a raw-text node. wf_registry is evaluated on every dumped registry (for compiled bundles of the grammar it is a theorem: compiled_registry_wf_partial; four probes outside the grammar that the compiler accepts are counted). Non-trivial = uses at least one of let/foreach/for/call/switch/if; distinct by source text + data."
 	if e.replay != "" {
 		c02Replay(e)
 		return
@@ -47,6 +47,7 @@ func runC02(e *env) {
 	// oracle applies unchanged.
 	c02Mutated(e, 700*e.scale)
 	c02Probes(e)
+	c02StrayProbes(e)
 	var hs []string
 	for _, k := range hx.SortedKeys(e.res.Histogram) {
 		if strings.HasPrefix(k, "feat:") {
@@ -91,6 +92,26 @@ func c02Probes(e *env) {
 			e.res.Histogram["probe:let-in-msg-compiles"]++
 		} else {
 			e.res.Histogram["probe:let-in-msg-rejected"]++
+		}
+	}
+}
+
+// c02StrayProbes: sources OUTSIDE the property's grammar that parse.SoyFile and Bundle.Compile nevertheless accept
+// (a file-level tag inside a template; a {plural} nested in a param / let / log inside a msg): the side condition
+// file_grammar of compiled_registry_wf_partial (Properties/C02.v; compiled_registry_wf_refuted is the first probe).
+// Counted, never reported: the property says nothing about them.  A parser that rejects them moves the counts.
+func c02StrayProbes(e *env) {
+	for _, body := range []string{
+		`A{template .y}B{/template}C`,
+		"A/** @param q */C",
+		`{msg desc="d"}{call .z}{param a}{plural $a}{case 1}one{default}many{/plural}{/param}{/call}{/msg}`,
+		`{msg desc="d"}{log}{plural $a}{case 1}one{default}many{/plural}{/log}{/msg}`,
+	} {
+		src := "{namespace ns}\n\n/** @param a */\n{template .t}\n" + body + "{$a}\n{/template}\n/** @param a */\n{template .z}\n{$a}\n{/template}\n"
+		if _, err := soy.NewBundle().AddTemplateString("stray.soy", src).Compile(); err == nil {
+			e.res.Histogram["probe:outside-grammar-compiles"]++
+		} else {
+			e.res.Histogram["probe:outside-grammar-rejected"]++
 		}
 	}
 }
